@@ -5,9 +5,10 @@
    [reach1 c s]: s is reached from the start of a request by ANY finite sequence of environment
    events (dial result, write progress, response head, body, peer close, timer, the caller's
    context ending at any position) and scheduling choices (which ready select case is taken). *)
-From Coq Require Import List.
+From Coq Require Import List ZArith.
 From ReqV Require Import Model.Lifecycle Model.LifecycleH2 Model.LifecycleH3 Model.RetryLife Proofs.Reach
-  Proofs.LifecycleProofs Proofs.LifecycleThms Proofs.LifecycleH2Proofs Proofs.LifecycleH3Proofs Proofs.RetryLifeProofs.
+  Proofs.LifecycleProofs Proofs.LifecycleThms Proofs.LifecycleH2Proofs Proofs.LifecycleH3Proofs Proofs.RetryLifeProofs
+  Model.Bystander Proofs.BystanderProofs.
 Import ListNotations.
 
 (* HTTP/1.1: wherever the context ended, once everything has settled the caller holds an error
@@ -168,6 +169,56 @@ Theorem C08_retry_pinned_deadline_never_stops : forall n,
   exists s, rrun false None rinit (RCancel CDeadline :: spin n) = Some s /\
             r_attempt s = n /\ r_phase s = PAttempt.
 Proof. exact retry_pinned_deadline_never_stops. Qed.
+
+(* ---- "the client remains fully usable": requests that SHARE something with the ended request ---- *)
+
+(* HTTP/1.1 wait queue (MaxConnsPerHost): any enqueue/cancel/idle sequence - no live waiter is left in the
+   queue while a connection is parked idle; the idle connection goes to the first live waiter *)
+Theorem C08_queue_no_live_waiter_stranded : forall ls,
+  q_idle (qrun false ls) > 0 -> has_live (q_queue (qrun false ls)) = false.
+Proof. exact queue_no_live_waiter_stranded. Qed.
+Print Assumptions C08_queue_no_live_waiter_stranded.
+
+Theorem C08_queue_first_live_served : forall s i r,
+  deliver (q_queue s) = (Some i, r) ->
+  q_served (qstep false s QFree) = q_served s ++ [i] /\
+  exists pre, q_queue s = pre ++ (i, true) :: r /\ has_live pre = false.
+Proof. exact queue_first_live_served. Qed.
+Print Assumptions C08_queue_first_live_served.
+
+Theorem C08_queue_front_only_refuted :
+  let s := qrun true [QEnq 0; QEnq 1; QCancel 0; QFree] in
+  q_idle s = 1 /\ has_live (q_queue s) = true /\ q_served s = [].
+Proof. exact queue_front_only_refuted. Qed.
+
+(* HTTP/2 connection window: DATA arriving for streams already reset and forgotten is handed back -
+   after any sequence of such frames the peer's window is the whole window again, up to a remainder
+   below inflowMinRefresh *)
+Theorem C08_window_restored : forall w ns f cr peer, (0 < w)%Z -> Forall (fun n => (0 <= n)%Z) ns ->
+  stray_frames true (win_init w) ns = Some (f, cr, peer) ->
+  (peer + in_unsent f = w /\ 0 <= in_unsent f < min_refresh /\ cr + in_unsent f = fold_right Z.add 0 ns)%Z.
+Proof. exact window_restored. Qed.
+Print Assumptions C08_window_restored.
+
+Theorem C08_window_ignored_refuted : forall w ns,
+  stray_frames false (win_init w) ns = Some (mkIn w 0, 0%Z, (w - fold_right Z.add 0 ns)%Z).
+Proof. exact window_ignored_refuted. Qed.
+
+(* a dial shared by two requests: the one that joined never fails because the owner's context ended *)
+Theorem C08_share_waiter_never_fails : forall ls s,
+  shrun true shinit ls = Some s -> forall e, s_b s <> BRet (Some e).
+Proof. exact share_waiter_never_fails. Qed.
+Print Assumptions C08_share_waiter_never_fails.
+
+Theorem C08_share_waiter_redials_for_every_cause : forall c,
+  shrun true shinit [SCancelA c; SDialFails; SBSees; SBDialOk] = Some (mkSh (Some c) (SFail c) (BRet None)).
+Proof. exact share_waiter_redials_for_every_cause. Qed.
+Print Assumptions C08_share_waiter_redials_for_every_cause.
+
+Theorem C08_share_deadline_dropped_refuted :
+  exists s, shrun false shinit [SCancelA CDeadline; SDialFails; SBSees] = Some s /\
+            s_b s = BRet (Some (ECause CDeadline)).
+Proof. exact share_deadline_dropped_refuted. Qed.
 
 Example C08_nonvacuous :
   let c := mkCfg1 false true true in
